@@ -132,3 +132,58 @@ Theorem C02_bgp_session_end_none_active : forall id key live0 evs r0 k a,
   rib_lookup (bs_rib_after r0 (bs_out (bs_process id key live0 evs).1)) k <> Some (true, a).
 Proof. exact session_end_none_active. Qed.
 Print Assumptions C02_bgp_session_end_none_active.
+
+From RV Require E2e.E2eModel E2e.E2eProofs Ingress.IngressModel Pipe.PipeModel Rib.RibModel.
+
+(* ---- an ingress unit that a reload takes out of the configuration and one that a reload puts back (E2e/E2eModel.v,
+   third part: istate / i_step; tied to the code by the `e2e` engine: ops J j / JL u) ----
+   The pipeline has two bmp-tcp-in units, `bmp-in` (router addresses 0..3) and `bmp-in2` (4..7), which every RIB unit
+   sources. [IIngress b] = the operator takes [units.bmp-in] out of the file / puts it back, effective with the next
+   [IE EReload]: the manager terminates the running unit - every connection of it ends - or starts a NEW unit.
+   [is_run] = a bmp-in unit runs, [is_want] = the file has one, [is_gen] = bmp-in units started before the one that
+   runs; the session of address k at incarnation g has the key k + 8 g ([i_session]); [i_children st rid] = the
+   ingress ids registered under router id rid (ids_for_parent); [i_rib_lookup st key] = what unit `rib` reports for
+   one (family, prefix, ingress id). *)
+
+(* every record the RIB holds under an ingress id registered under a router that is connected to the unit which
+   the reload takes out is reported withdrawn afterwards, with the attributes it had (the statement seeded C03-b1 breaks:
+   read_from_router's 'gate terminated' exit skipped the clean-up) ... *)
+Theorem C02_removed_unit_withdraws_its_routes : forall st k rid s id key,
+  E2eModel.is_run st = true -> E2eModel.is_want st = false ->
+  (k < 4)%N -> E2eModel.i_session st (k + 8 * E2eModel.is_gen st)%N = Some (rid, s) -> In id (E2eModel.i_children st rid) ->
+  RibModel.k_mui key = id -> (RibModel.k_fam key < 4)%N ->
+  E2eModel.i_rib_lookup (E2eModel.i_step false st (E2eModel.IE E2eModel.EReload)) key =
+  E2eModel.withdrawn_of (E2eModel.i_rib_lookup st key).
+Proof. exact E2eProofs.removed_unit_withdraws_its_routes_std. Qed.
+Print Assumptions C02_removed_unit_withdraws_its_routes.
+
+(* ... and nothing else changes: a record whose ingress id is not registered under one of those routers is reported
+   as before, the sessions of the other ingress unit are what they were, the register is untouched *)
+Theorem C02_removal_spares_other_ingresses : forall st,
+  E2eModel.is_run st = true -> E2eModel.is_want st = false ->
+  let st' := E2eModel.i_step false st (E2eModel.IE E2eModel.EReload) in
+  (forall key,
+     (forall k rid s, (k < 4)%N -> E2eModel.i_session st (k + 8 * E2eModel.is_gen st)%N = Some (rid, s) ->
+                      ~ In (RibModel.k_mui key) (E2eModel.i_children st rid)) ->
+     E2eModel.i_rib_lookup st' key = E2eModel.i_rib_lookup st key) /\
+  (forall k, (4 <= k < 8)%N -> E2eModel.i_session st' k = E2eModel.i_session st k) /\
+  (forall rid, E2eModel.i_children st' rid = E2eModel.i_children st rid).
+Proof. exact E2eProofs.removal_spares_other_ingresses_std. Qed.
+Print Assumptions C02_removal_spares_other_ingresses.
+
+(* exactly the difference: what the removal does to a RIB unit that lives through the reload - `rib`, and a second rib
+   unit of unchanged type - is ONE bulk withdrawal of the ids registered under the routers that were connected *)
+Theorem C02_removal_is_one_bulk_withdrawal : forall st,
+  E2eModel.is_run st = true -> E2eModel.is_want st = false ->
+  let st' := E2eModel.i_step false st (E2eModel.IE E2eModel.EReload) in
+  let ids := E2eModel.removed_ids (E2eModel.es_w (E2eModel.is_e st))
+               (map (E2eModel.src_key (E2eModel.is_gen st)) E2eModel.unit1_addrs) in
+  E2eModel.ru_rib (E2eModel.es_rib (E2eModel.is_e st')) =
+    RibModel.rib_apply (E2eModel.ru_rib (E2eModel.es_rib (E2eModel.is_e st))) (RibModel.UWithdrawBulk ids) /\
+  E2eModel.ru_filter (E2eModel.es_rib (E2eModel.is_e st')) = E2eModel.ru_filter (E2eModel.es_rib (E2eModel.is_e st)) /\
+  forall r, E2eModel.es_rib2 (E2eModel.is_e st) = Some r -> E2eModel.es_rib2kind (E2eModel.is_e st) = 1%N ->
+            E2eModel.ef_rib2 (E2eModel.es_file (E2eModel.is_e st)) = 1%N ->
+    E2eModel.es_rib2 (E2eModel.is_e st') =
+    Some (E2eModel.MkRunit (E2eModel.ru_filter r) (E2eModel.ru_born r) (RibModel.rib_apply (E2eModel.ru_rib r) (RibModel.UWithdrawBulk ids))).
+Proof. exact E2eProofs.removal_is_one_bulk_withdrawal_std. Qed.
+Print Assumptions C02_removal_is_one_bulk_withdrawal.
